@@ -14,7 +14,7 @@ RULE = (
     "(non-degenerate) or a degenerate class named by the property; distinct = distinct parameter tuple."
 )
 BUDGET = {"quick": 24000, "thorough": 1200000}
-TIME_CAP = {"quick": 60, "thorough": 1500}
+TIME_CAP = {"quick": 240, "thorough": 1500}
 ANCHORS = ["Arc.__init__", "Arc._svg_parameterize", "Arc._svg_complex_parameterize", "Path.arc", "Arc.npoint", "Arc.point_at_t",
            "Arc.get_start_t", "Arc.t_at_point", "Arc.length", "Arc.bbox"]
 REQUIRED_MONITORS = ["endpoints-exact", "pointwise-F6", "flags", "radii-rotation", "coincident-endpoints", "zero-radius"]
